@@ -1,9 +1,15 @@
 use super::*;
+use std::collections::HashSet;
 use std::fs;
 use std::path::PathBuf;
 
 #[derive(Debug, Default)]
-pub(crate) struct FilesWithBackupEmitter;
+pub(crate) struct FilesWithBackupEmitter {
+    /// Files this session has already rewritten. A file that is reached a second time
+    /// (two spellings of its path) holds the formatted text by then; backing it up again
+    /// would replace the original kept in its `.bk`.
+    rewritten: HashSet<PathBuf>,
+}
 
 impl Emitter for FilesWithBackupEmitter {
     fn emit_formatted_file(
@@ -17,6 +23,10 @@ impl Emitter for FilesWithBackupEmitter {
     ) -> Result<EmitterResult, io::Error> {
         let filename = ensure_real_path(filename);
         if original_text != formatted_text {
+            let identity = fs::canonicalize(filename).unwrap_or_else(|_| filename.to_path_buf());
+            if !self.rewritten.insert(identity) {
+                return Ok(EmitterResult::default());
+            }
             // Do a little dance to make writing safer - write to a temp file
             // rename the original to a .bk, then rename the temp file to the
             // original.
